@@ -108,6 +108,17 @@ def _analyze(mod, ob, mode, timeout, exclude=()):
     # uninterpreted return value.
     import crosshair.core as _core
     _core.ShortCircuitingContext.make_interceptor = lambda self, original: original
+    # No enforcement of callee contracts either: a callee whose docstring happens to
+    # carry (or, for harness helpers, does carry) a contract would have its failing
+    # postcondition turned into an ignored path of the caller.
+    import crosshair.enforce as _enf
+    _orig_trace_call = _enf.EnforcedConditions.trace_call
+
+    def _trace_call(self, frame, fn, binding_target):
+        if isinstance(fn, type):
+            return _orig_trace_call(self, frame, fn, binding_target)
+        return None
+    _enf.EnforcedConditions.trace_call = _trace_call
 
     stats = {"z3_checks": 0, "z3_time": 0.0}
     orig_check = z3.Solver.check
